@@ -330,7 +330,13 @@ impl Session {
 
     /// what the layout would answer to this event from its current state, computed on clones
     fn layout_answers(&self, ev: Option<KeyEvent>) -> String {
-        let cur = self.lay.borrow();
+        self.layout_answers_of(&**self.lay.borrow(), ev)
+    }
+
+    /// the answers of layout object `cur` (the installed one; for `setlayout` the object being installed: the call
+    /// re-validates an open candidate list against the NEW layout's `alt_syllables`)
+    fn layout_answers_of(&self, cur: &dyn SyllableEditor, ev: Option<KeyEvent>) -> String {
+        let cur = &cur;
         let mut out = String::from("L");
         match ev {
             Some(ev) => {
@@ -1369,7 +1375,11 @@ fn main() {
             };
             let pre = s.ed.verif_snapshot();
             let dict_pre = s.dict_s();
-            let lay_ans = s.layout_answers(ev);
+            let lay_ans = match &op {
+                // the only layout the editor asks during `set_syllable_editor` is the one it is given
+                Op::SetLayout(k) => s.layout_answers_of(&*layout(*k), ev),
+                _ => s.layout_answers(ev),
+            };
             // what the application sees before the operation (C02); getters only, before the log is reset
             LOOKUPS.with(|c| c.set(0));
             let display_pre = catch_unwind(AssertUnwindSafe(|| s.ed.display())).ok();
